@@ -169,7 +169,26 @@ def torch_pickles(ctx, n):
     import torch
     from vp import torchfiles
     rng = asm.rng_for(ctx.seed, "torchpk")
-    for label, obj in torchfiles.models(torch, rng, n):
+    objs = list(torchfiles.models(torch, rng, n))
+    if ctx.tier == "thorough":
+        # the repository's own test model: a real-world sized pickle, eager and TorchScript
+        try:
+            import warnings
+            import torchvision.models as tvm
+            with warnings.catch_warnings():
+                warnings.simplefilter("ignore")
+                net = tvm.mobilenet_v2()
+                objs.append(("mobilenet_v2", net))
+                objs.append(("mobilenet_v2_state", net.state_dict()))
+                buf = io.BytesIO()
+                torch.jit.save(torch.jit.script(torch.nn.Sequential(torch.nn.Linear(3, 2), torch.nn.ReLU())), buf)
+            with zipfile.ZipFile(io.BytesIO(buf.getvalue())) as z:
+                for name in z.namelist():
+                    if name.endswith(".pkl"):
+                        yield "torch-jit-" + name.rsplit("/", 1)[-1], z.read(name)
+        except Exception:
+            pass
+    for label, obj in objs:
         buf = io.BytesIO()
         torch.save(obj, buf)
         with zipfile.ZipFile(io.BytesIO(buf.getvalue())) as z:
